@@ -333,8 +333,8 @@ class Engine:
         m = re.match(r'^((?:\w+::)*\w+)(?:::<.*>)?$', c)
         if m:
             fl = self.free_fns.get(m.group(1)) or self.free_fns.get(m.group(1).split('::')[-1])
-            if fl and len(fl) == 1:
-                return fl[0]
+            if fl and (len(fl) == 1 or len({b.header for b in fl}) == 1):
+                return fl[0]                      # constructor shims are dumped twice with identical bodies
         return None
 
     def closure_body(self, span):
@@ -1123,6 +1123,12 @@ class Engine:
     def needs_inline(self, target, args):
         mir.analyse_cfg(target)
         if target.has_loops or self.inline_all or target.name in self.always_inline:
+            return True
+        if getattr(target, 'iter_calls', None) is None:
+            # iterator chains are loops in disguise: summarising them on fresh (symbolic-length) vectors is what must be avoided
+            target.iter_calls = any(blk.term is not None and blk.term[0] == 'call' and re.search(r' as (?:Iterator|Extend<.*>)>::|::(?:retain|extend|splice|drain)(?:::<|$)', blk.term[2])
+                                    for blk in target.blocks.values() if not blk.cleanup)
+        if target.iter_calls:
             return True
         for a in args:
             if isinstance(a, (Ref, It)):
